@@ -178,12 +178,38 @@ def cases(draw):
 	if rnd.random() < 0.2:
 		src = src.replace('\n', '\r\n')  # a CRLF checkout: the line breaks inside multi-line string tokens are part of the token value
 		stats = dict(stats, crlf=True)
+	if rnd.random() < 0.25:
+		# characters that str.splitlines() takes for line breaks but the lexer does not (form feed, vertical tab, FS/GS/RS, NEL, U+2028/9),
+		# inside comment and string tokens: they are ordinary characters of the token, its span ends on the same line
+		src, n = exotic_separators(rnd, src)
+		if n:
+			stats = dict(stats, exotic=True)
 	return {'source': src, 'stats': stats}
+
+
+def exotic_separators(rnd, src: str) -> tuple[str, int]:
+	import io
+	import tokenize
+	try:
+		toks = [t for t in tokenize.generate_tokens(io.StringIO(src).readline) if t.type in (tokenize.COMMENT, tokenize.STRING) and t.start[0] == t.end[0]]
+	except (tokenize.TokenError, SyntaxError, IndentationError):
+		return src, 0
+	toks = [t for t in toks if t.type == tokenize.COMMENT or (t.string[:1] in '"\'' and not t.string.startswith(('"""', "'''")) and len(t.string) >= 2)]
+	if not toks:
+		return src, 0
+	lines = src.split('\n')
+	chosen = rnd.sample(toks, min(len(toks), rnd.randint(1, 3)))
+	for t in sorted(chosen, key=lambda t: t.start, reverse=True):
+		row, col = t.start[0] - 1, t.start[1] + 1
+		if row < len(lines) and lines[row][t.start[1]:t.start[1] + 1] == t.string[:1]:
+			ch = rnd.choice(['\f', '\v', '\x1c', '\x1d', '\x1e', '\x85', '\u2028', '\u2029'])
+			lines[row] = lines[row][:col] + rnd.choice(['', 'a ']) + ch + rnd.choice(['', ' b']) + lines[row][col:]
+	return '\n'.join(lines), len(chosen)
 
 
 def run_case(scratch: str, source: str) -> tuple[list[tuple[str, str]], dict]:
 	a = app(scratch)
-	with open(os.path.join(scratch, '__main__.py'), 'w') as f:  # so that the quotation of '__main__' nodes can be compared
+	with open(os.path.join(scratch, '__main__.py'), 'w', encoding='utf-8', newline='') as f:  # so that the quotation of '__main__' nodes can be compared
 		f.write(source if source.endswith('\n') else source + '\n')
 	try:
 		return judge(a, source, '__main__.py')
@@ -213,7 +239,7 @@ def shard(ctx: core.Ctx) -> None:
 			ctx.evaluations += 1
 			return
 		ctx.case(case['source'], info['none'] > 0 and info['empty_meta'] > 0, sample={'source': case['source'], 'entries': info['entries'], 'empty_slots': info['none'], 'trees_with_empty_meta': info['empty_meta']} if len(case['source']) < 300 else None,
-			labels=['g2-module'] + (['crlf'] if case['stats'].get('crlf') else []) + (['has-empty-slot'] if info['none'] else []) + (['has-empty-meta'] if info['empty_meta'] else []))
+			labels=['g2-module'] + (['crlf'] if case['stats'].get('crlf') else []) + (['exotic-separators'] if case['stats'].get('exotic') else []) + (['has-empty-slot'] if info['none'] else []) + (['has-empty-meta'] if info['empty_meta'] else []))
 		for sig, detail in fails:
 			ctx.fail(sig, detail + f'\n  source={case["source"]!r}', {'kind': 'module', 'source': case['source']})
 
